@@ -52,7 +52,9 @@ type LBundle struct {
 	Order            map[string][]int // URL -> indices into Exchanges in expected read-back order
 }
 
-var headerNames = []string{"Content-Type", "content-length", "X-Foo", "x-BAR-1", "ETag", "cache-control", "Accept-Ranges", "LINK", "Vary", "x-a", "X-Long-Header-Name-For-Length-Class-Testing-0123456789", "Server-Timing"}
+var headerNames = []string{"Content-Type", "content-length", "X-Foo", "x-BAR-1", "ETag", "cache-control", "Accept-Ranges", "LINK", "Vary", "x-a", "X-Long-Header-Name-For-Length-Class-Testing-0123456789", "Server-Timing",
+	// every character a field name may contain besides letters, digits and "-" (RFC 7230 tchar)
+	"X_Request_Id", "X-Cache^Status", "x.dotted.name", "x!#$%&'*+|~`tchars"}
 
 var bodyLens = []int{0, 1, 13, 22, 23, 24, 25, 254, 255, 256, 257, 1000, 65534, 65535, 65536, 65537}
 
@@ -74,7 +76,7 @@ func visible(c *core.Ctx, label string, lo, hi int) string {
 	return string(b)
 }
 
-var hosts = []string{"example.com", "www.example.com", "other.test", "third.example", "sub.wild.example", "fourth.example", "fifth.example", "sixth.example", "uncovered.invalid"}
+var hosts = []string{"example.com", "www.example.com", "other.test", "third.example", "sub.wild.example", "fourth.example", "fifth.example", "sixth.example", "seventh.example", "uncovered.invalid"}
 var segs = []string{"a", "index.html", "p%20q", "%E3%81%82", "~user", "a.b-c_d", "x;y", "q=1", "@at", "looooooooooooooooooooooooooooooooooooooooooooooooooooooooooooooooooooooooooooooooooooooooooooooooooooooooooooooooooooooooooooooooooooooooooooooooooooooooooooooooooooooooooooooooooooooooooooooooooooooooooooooooooooooooooooooooooooooooooooooooooooooooooooooooooooooong"}
 
 // DrawURL draws a URL string whose Parse/String form is a fixpoint.
